@@ -218,7 +218,11 @@ func runShard(f lib.Flags, scs []Scenario, idxs []int, outs []Outcome) {
 				var o Outcome
 				if len(rest) == 3 && json.Unmarshal([]byte(rest[2]), &o) == nil {
 					outs[i] = o
-					if len(o.Viols) > 0 {
+					broken := false
+					for _, t := range o.Ties {
+						broken = broken || t.Err != "" || t.Model != t.Code
+					}
+					if len(o.Viols) > 0 || broken {
 						// enough failing inputs: do not spend the whole budget waiting on blocked goroutines
 						if stopEarly.Add(1) >= 8 {
 							cmd.Process.Kill()
